@@ -97,6 +97,7 @@ type Driver struct {
 	rSched, rLat, rJit, rYield, rWatch, rFault *Rng
 
 	free       bool // free-run mode (C20): no central scheduling
+	hasBare    bool // some election object has no Metrics: its flag is polled
 	ending     bool
 	gids       map[uint64]int
 	gidInst    map[uint64]int // goroutine -> instance it was last seen working for
@@ -686,6 +687,13 @@ func (d *Driver) finishOp(op *Op, resp opResp) {
 		in.inflightOps--
 	}
 	d.logf("return #%d i%d %s err=%v", op.ID, op.Inst, op.Kind, resp.err)
+	if op.Kind == "watch" && resp.err == nil && op.obj != nil {
+		if in := op.obj.in; in.cfg.NoLogger && op.obj == in.cur && !d.ending {
+			// no Logger to hear "watch_started" from: the watch is established when the call returns
+			in.watchOK = true
+			in.watchOKAt = d.lastNow
+		}
+	}
 	if op.obj != nil && resp.err == nil {
 		switch op.Kind {
 		case "create", "update":
